@@ -275,6 +275,11 @@ def run_C03(res):
     rim = [p for p, o in zip(rim, okr) if o][: (60 if res.tier == "quick" else 1200)]
     for p in rim:
         cases.append((p, [Pos(p).hash], "1", "depth", "depth " + str(rnd.choice([3, 4, 4, 5] if res.tier == "quick" else [4, 5, 6])), True, "rim-check"))
+    # roots whose key (or whose successor's key) is a special value: 0 is what an empty table slot holds, so a fresh table "hits"
+    from props_core import special_key_positions
+    for p in special_key_positions(res, both=True):
+        for a in ("depth 3", "depth 2", "nodes 200"):
+            cases.append((p, [Pos(p).hash], "1", a.split()[0], a, True, "special-key"))
     # roots without any legal move (mate / stalemate): the answer must be the null move
     sparse = [l for l in run_driver([f"gsparse {res.seed + 9} {3000 if res.tier == 'quick' else 60000} 0"]) if l and l != "bad-op"]
     nomoves = [p for p, m in zip(sparse, run_driver_par(["moves " + p for p in sparse])) if m == "-"]
@@ -306,6 +311,43 @@ def run_C03(res):
             res.count("root_without_legal_moves")
             if pr["best"] is not None:
                 res.fail("search returned a move in a position without legal moves", root=p, observed=pr["best"])
+    table_size_sessions_C03(res, rnd)
+
+
+def table_size_sessions_C03(res, rnd):
+    """`all prior table contents and table sizes` at process level: the Hash option changed between searches (growing by less than a factor
+    of two, shrinking, odd sizes, before and after isready); every `go` must answer with a legal move of its root"""
+    import concurrent.futures
+    vlib.cargo_build_bins()
+    seqs = [(24,), (1, 3), (7, 12), (2, 3, 5), (3, 5, 4), (64, 96), (12, 8, 11), (5, 4, 6), (1, 2, 3, 4), (33, 17, 25)]
+    if res.tier == "thorough":
+        seqs += [tuple(rnd.randrange(1, 130) for _ in range(rnd.randrange(1, 5))) for _ in range(60)]
+    lines = ["e2e4", "e2e4 e7e5", "d2d4 d7d5 c2c4", "g1f3 g8f6 g2g3 g7g6"]
+    jobs = []
+    for k, sq in enumerate(seqs):
+        for pre in (False, True):
+            sc = (["setoption name Hash value %d" % sq[0]] if pre else []) + ["isready"]
+            ngo = 0
+            for j, n in enumerate(sq[1:] if pre else sq):
+                sc += ["position startpos moves " + lines[(k + j) % len(lines)], "go depth 3", "setoption name Hash value %d" % n]
+                ngo += 1
+            sc += ["position startpos moves " + lines[k % len(lines)], "go depth 3", "go split 1", "quit"]
+            for b in ("release", "checked"):
+                jobs.append((sc, b, ngo + 1))
+    with concurrent.futures.ThreadPoolExecutor(12) as ex:
+        outs = list(ex.map(lambda j: vlib.run_engine(j[0], j[1], timeout=60), jobs))
+    for (sc, b, ngo), (rc, out, err, to, secs) in zip(jobs, outs):
+        res.evaluations += 1
+        res.count("table_size_sessions")
+        if to:
+            res.fail("no answer from a search after a table size change (hang)", script=sc, build=b)
+            continue
+        best = re.findall(r"^bestmove (\S+)", out, re.M)
+        legal_last = set(re.findall(r"^([a-h][1-8][a-h][1-8][nbrq]?) \d+$", out, re.M))
+        if rc != 0 or "panicked" in err or len(best) != ngo:
+            res.fail("a search after a table size change did not answer with a move", script=sc, build=b, exit_status=rc, bestmoves=best, stderr=err[-200:])
+        elif best[-1] not in legal_last:
+            res.fail("search returned an illegal move after a table size change", script=sc, build=b, observed=best[-1])
 
 
 def match_F2(f):
